@@ -174,7 +174,9 @@ func runStream(cfg streamCfg, ch *vk.Chooser, stats *streamStats) (v *streamViol
 			}
 		}
 	}
-	collect := func() []string { return append(append([]string{}, prefixAll("A.in ", a.in.devlog)...), prefixAll("B.in ", b.in.devlog)...) }
+	collect := func() []string {
+		return append(append([]string{}, prefixAll("A.in ", a.in.devlog)...), prefixAll("B.in ", b.in.devlog)...)
+	}
 	for _, size := range cfg.writes {
 		for di, d := range dirs {
 			data := payload(cfg.content, uint32(di), len(d.sent), size)
